@@ -38,7 +38,8 @@ PROPS = {
     "C08": {
         "module": "Matreex.Props.C08", "harness": "C08",
         "technique": "Lean 4 theorems over unbounded naturals about the regenerated size/capacity decision code (T2) + table theorem over the re-extracted check/allocation order of all 17 allocating functions (T1) + correspondence on the boundary grid",
-        "trusted": ["Vec::with_capacity / vec! / resize_with modelled as panic('capacity overflow') above isize::MAX bytes and otherwise as success (the allocator itself is not modelled)",
+        "trusted": ["with_value / with_default / with_initializer and reshape are regenerated from src/construct.rs / src/lib.rs (T8) and proved equal to the model functions with no hypothesis (constructors_are_the_source, reshape_is_the_source); the products likewise (T10, see C11); the other allocating functions are tied by the T1 table and by correspondence",
+                    "Vec::with_capacity / vec! / resize_with modelled as panic('capacity overflow') above isize::MAX bytes and otherwise as success (the allocator itself is not modelled)",
                     "translate/t1.py alloc_order: regex extraction of the order of `ensure_*conformable(..)?`, `try_to_axis_shape(..)?`, `check_size(..)?` and vector-producing calls in the 17 function bodies",
                     "predicted-Ok calls larger than 4096 elements are not executed (decision covered by the hooks wrappers on the full grid and by the theorems)"],
         "assumptions": ["CapacityOverflow inputs for the row conversions with sized elements cannot physically exist; that branch is covered by the T1 table theorem only"],
@@ -64,7 +65,8 @@ PROPS["C09"] = {
 PROPS["C12"] = {
     "module": "Matreex.Props.C12", "harness": "C12", "extra_modules": ["Matreex.Props.C12Source"],
     "technique": "Lean 4 theorems about the regenerated conformability predicate and the same-order/cross-order data paths (cross-order get_unchecked in bounds via the remap lemma) + T1 tables of the named methods and operator delegation + correspondence with symbolic token terms",
-    "trusted": ["iter().zip / enumerate / collect modelled as positionwise maps; get_unchecked as UB outside the vector",
+    "trusted": ["the guard and the three generic elementwise operations are regenerated from src/arithmetic.rs (T9) and proved equal to the model functions (elementwise_is_the_source: no hypothesis for the two non-assign variants, coherent operands for the assign variant); the named methods and operators delegate to them (T1 tables)",
+                "iter().zip / enumerate / collect modelled as positionwise maps (T9 maps this iterator vocabulary by name); get_unchecked as UB outside the vector",
                 "closures are effect-free functions in the theorems (exactly-once is the shape of the map; the harness counts real calls)",
                 "translate/t1.py elementwise_forms: regex extraction of method bodies and operator impl bodies"],
     "assumptions": ["Coh and size <= usize::MAX for both operands (C01)"],
@@ -80,7 +82,8 @@ PROPS["C18"] = {
 PROPS["C11"] = {
     "module": "Matreex.Props.C11", "harness": "C11",
     "technique": "Lean 4 theorems over abstract mul/add/default (no algebraic laws): size decision (T2), set_order via the C05 transpose proof, unchecked row/column slices in range, unwrap_unchecked never on None, both loop nests, lift to the logical view + correspondence over symbolic token terms",
-    "trusted": ["get_unchecked(range) as UB outside the vector, Option::unwrap_unchecked as UB on None, zip/map/reduce as list functions (Model/Mul.lean)",
+    "trusted": ["multiply, multiplication_like_operation, get_nth_major_axis_vector, dot_product and the conformability guard are regenerated from src/arithmetic/mul.rs / src/arithmetic.rs (T10) and proved equal to the model functions, Error results and faults included, with no hypothesis (products_are_the_source); set_order inside multiply is mapped to the model's setOrder (its transposition is T5's)",
+                "get_unchecked(range) as UB outside the vector, Option::unwrap_unchecked as UB on None, zip/map/reduce as list functions (Model/Mul.lean; T10 maps this vocabulary by name)",
                 "mul/add/Default/Clone are effect-free functions in the theorems (fault schedules: C02); borrowed operator forms clone the operand first (hand-modelled in the driver)"],
     "assumptions": ["Coh and size <= usize::MAX for both operands (C01)"],
 }
@@ -132,7 +135,8 @@ PROPS["C20"] = {
 PROPS["C07"] = {
     "module": "Matreex.Props.C07", "harness": "C07", "extra_modules": ["Matreex.Props.C07Programs"],
     "technique": "Lean 4 theorems: storage order is transparent for EVERY program of order-agnostic operations with order switches inserted anywhere (programs_order_transparent, through the refinement to the logical reference model); == is exactly logical equality for every pair of orders (cross-order get_unchecked in bounds), hence reflexive/symmetric/transitive; congruence of the order-agnostic operations w.r.t. logical equality as corollaries of their specifications (C04, C05, C10, C11, C12, C14, C20) + metamorphic correspondence (programs run row-major and with mixed orders / inserted switch_order)",
-    "trusted": ["PartialEq for Vec / slices modelled as length + pairwise comparison; element PartialEq is an input function",
+    "trusted": ["PartialEq::eq of src/eq.rs is regenerated (T7) and proved equal to the model's == for coherent operands, faults included; with no hypothesis it returns what the model returns whenever the model does not fault (Iterator::all short-circuits, the model does not) (eq_is_the_source)",
+                "PartialEq for Vec / slices modelled as length + pairwise comparison; element PartialEq is an input function",
                 "the congruence theorems cover get, transpose, swap_rows, overwrite, elementwise operations, multiply and Display; swap_cols, swap, scalar operations, map/apply and the views are covered by their own specifications (C06, C10, C18) plus the metamorphic runs, not by a separate congruence theorem"],
     "assumptions": ["Coh and size <= usize::MAX (C01)"],
 }
